@@ -14,7 +14,7 @@ Proof.
   - apply Z.leb_le in E. injection H as <- <-. lia.
   - apply Z.leb_gt in E. destruct ev; [discriminate|].
     destruct wk as [o|].
-    + destruct ((0 <? o) && (o <? rem)); [discriminate|]. injection H as <- <-. lia.
+    + destruct ((0 <=? o) && (o <? rem)); [discriminate|]. injection H as <- <-. lia.
     + injection H as <- <-. lia.
 Qed.
 
@@ -26,8 +26,8 @@ Proof.
   destruct ev.
   - injection H as <- <- <-. lia.
   - destruct wk as [o|]; [|discriminate].
-    destruct ((0 <? o) && (o <? rem)) eqn:E2; [|discriminate].
-    apply andb_true_iff in E2. destruct E2 as [E3 E4]. apply Z.ltb_lt in E3. apply Z.ltb_lt in E4.
+    destruct ((0 <=? o) && (o <? rem)) eqn:E2; [|discriminate].
+    apply andb_true_iff in E2. destruct E2 as [E3 E4]. apply Z.leb_le in E3. apply Z.ltb_lt in E4.
     injection H as <- <- <-. lia.
 Qed.
 
@@ -140,12 +140,12 @@ Qed.
 
 (* undisturbed (no wake-up at all): the object is paused for exactly the delay, then free *)
 Lemma pause_undisturbed : forall dl st now e d,
-  e_body e = BErr -> until st = None -> e_ev e = false -> e_wk2 e = None ->
+  e_body e = BErr -> until st = None -> e_ev e = false -> e_evb e = false -> e_wk2 e = None ->
   fst (choose dl st) = Some d ->
   let r := episode dl st now e in
   until (r_state r) = None /\ r_exit r = now + Z.max 0 (e_dur e) + Z.max 0 d /\ r_pause r = Some d.
 Proof.
-  intros dl st now e d0 Hbody Hu0 Hev Hwk Hc. unfold episode. rewrite Hu0, Hbody, Hev, Hwk. simpl.
+  intros dl st now e d0 Hbody Hu0 Hev Hevb Hwk Hc. unfold episode. rewrite Hu0, Hbody, Hev, Hevb, Hwk. simpl.
   destruct (choose dl st) as [[d|] p']; simpl in Hc; [|discriminate]. injection Hc as ->.
   rewrite sleep_undisturbed. simpl. auto.
 Qed.
@@ -233,10 +233,13 @@ Definition step_ok (exp : nat -> option Z) (x : nat * ep * result) : Prop :=
       (e_body e <> BErr -> r_pause r = None)
   end.
 
-Lemma throttle_sequence_list : forall l es st c,
-  TInv l st c -> Forall (step_ok (expected l)) (run_counts (dl_list l) st c es).
+(* one episode: the law of this step, and the invariant for the next *)
+Lemma step_ok_episode : forall l st c now e,
+  TInv l st c ->
+  step_ok (expected l) (c, e, episode (dl_list l) st now e) /\
+  TInv l (r_state (episode (dl_list l) st now e)) (count_after c (episode (dl_list l) st now e) (e_body e)).
 Proof.
-  intros l es. induction es as [|[now e] es IH]; intros st c HI; simpl; constructor.
+  intros l st c now e HI. split.
   - unfold step_ok. repeat split.
     + destruct (TInv_after_err _ _ _ now e HI H0 H) as (H1 & _ & _). exact H1.
     + destruct (TInv_after_err _ _ _ now e HI H0 H) as (_ & _ & H3). exact H3.
@@ -248,13 +251,37 @@ Proof.
         -- destruct (episode_ok_run _ _ _ _ Hb Hs) as (_ & _ & H3). exact H3.
         -- destruct (episode_skip _ _ _ _ Hs) as (_ & H2 & _). exact H2.
       * destruct (episode_esc (dl_list l) st now e Hb) as (_ & _ & _ & H4). exact H4.
-  - apply IH. unfold count_after.
+  - unfold count_after.
     destruct (r_should (episode (dl_list l) st now e)) eqn:Hs.
     + destruct (e_body e) eqn:Hb.
       * apply (TInv_after_ok l st now e Hb Hs).
       * destruct (TInv_after_err _ _ _ now e HI Hb Hs) as (_ & H2 & _). exact H2.
       * destruct (episode_esc (dl_list l) st now e Hb) as (H1 & H2 & _). eapply TInv_pos_lastd; eauto.
     + apply TInv_after_skip; assumption.
+Qed.
+
+Lemma throttle_sequence_list : forall l es st c,
+  TInv l st c -> Forall (step_ok (expected l)) (run_counts (dl_list l) st c es).
+Proof.
+  intros l es. induction es as [|[now e] es IH]; intros st c HI; simpl; constructor.
+  - apply step_ok_episode; exact HI.
+  - apply IH. apply step_ok_episode; exact HI.
+Qed.
+
+(* the same law for the cycles of process_resource_event (block guarded by should_run) *)
+Lemma throttle_sequence_proc : forall l es st c,
+  TInv l st c -> Forall (step_ok (expected l)) (proc_counts (dl_list l) st c es).
+Proof.
+  intros l es. induction es as [|[now e] es IH]; intros st c HI; simpl; constructor.
+  - apply step_ok_episode; exact HI.
+  - apply IH. apply step_ok_episode; exact HI.
+Qed.
+
+(* proc_counts is run_proc with the ghost counter attached *)
+Lemma proc_counts_results : forall dl es st c, map snd (proc_counts dl st c es) = run_proc dl st es.
+Proof.
+  intros dl es. induction es as [|[now e] es IH]; intros st c; simpl; [reflexivity|].
+  f_equal. apply IH.
 Qed.
 
 (* ---------- which delay: endless re-iterable sources ---------- *)
@@ -344,14 +371,118 @@ Lemma containment_full : forall dl w u nowu eu v nowv ev,
   snd (wstep dl (fst (wstep dl w u nowu eu)) v nowv ev) = snd (wstep dl w v nowv ev).
 Proof. intros. split; [apply wstep_frame; assumption|apply containment; assumption]. Qed.
 
+(* ---------- process_resource_event: the guarded block, whole histories of several objects ---------- *)
+
+Lemma should_body_indep : forall dl st now e b,
+  r_should (episode dl st now (with_body e b)) = r_should (episode dl st now e).
+Proof.
+  intros dl st now [ev wk1 bd dur evb wk2] b. unfold with_body, episode. simpl.
+  destruct (until st) as [u|]; [destruct (sleep ev (u - now) now wk1) as [[n o] ev1]; destruct o|];
+    destruct b; destruct bd; simpl; try reflexivity;
+    repeat match goal with
+           | |- context [match ?x with _ => _ end] => destruct x; simpl; try reflexivity
+           end.
+Qed.
+
+Lemma with_body_same : forall e, with_body e (e_body e) = e.
+Proof. intros []; reflexivity. Qed.
+
+Lemma guard_run : forall dl st now e,
+  r_should (episode dl st now e) = true -> proc_event dl st now e = episode dl st now e.
+Proof.
+  intros dl st now e H. unfold proc_event, guard. rewrite should_body_indep, H. reflexivity.
+Qed.
+
+Lemma guard_skip : forall dl st now e,
+  r_should (episode dl st now e) = false -> proc_event dl st now e = episode dl st now (with_body e BOk).
+Proof.
+  intros dl st now e H. unfold proc_event, guard. rewrite should_body_indep, H. reflexivity.
+Qed.
+
+(* processing one event never lets an Exception out (the worker and the operator go on), for every
+   throttler state, time, delay source and wake-up pattern — no side condition *)
+Lemma proc_never_fatal : forall dl st now e,
+  e_body e <> BEsc -> r_escalated (proc_event dl st now e) = false.
+Proof.
+  intros dl st now e Hne.
+  destruct (r_should (episode dl st now e)) eqn:Hs.
+  - rewrite (guard_run _ _ _ _ Hs). apply episode_never_fatal; [exact Hne|]. rewrite Hs. discriminate.
+  - rewrite (guard_skip _ _ _ _ Hs). apply episode_never_fatal; [simpl; discriminate|]. intros _. reflexivity.
+Qed.
+
+Lemma wrun_never_fatal : forall dl evs w,
+  Forall (fun x => e_body (snd x) <> BEsc) evs ->
+  Forall (fun ur => r_escalated (snd ur) = false) (wrun dl w evs).
+Proof.
+  intros dl evs. induction evs as [|[[u now] e] evs IH]; intros w H; simpl; constructor.
+  - simpl. apply proc_never_fatal. inversion H; assumption.
+  - apply IH. inversion H; assumption.
+Qed.
+
+(* non-interference: in ANY interleaving of processing cycles, what an object experiences (whether and
+   when it runs, its pauses, its throttler) is exactly what it would experience alone: the errors
+   of other objects neither delay nor accelerate it *)
+Lemma wrun_noninterference : forall dl evs w v,
+  of_object v (wrun dl w evs) = run_proc dl (w v) (events_of v evs).
+Proof.
+  intros dl evs. induction evs as [|[[u now] e] evs IH]; intros w v; [reflexivity|].
+  unfold of_object, events_of in *. simpl.
+  destruct (Nat.eqb u v) eqn:E.
+  - apply Nat.eqb_eq in E. subst u. simpl. f_equal.
+    rewrite IH. rewrite Nat.eqb_refl. reflexivity.
+  - rewrite IH. rewrite Nat.eqb_sym in E. rewrite E. reflexivity.
+Qed.
+
+(* both together: inside any interleaving with any other objects, object v's cycles obey the delay law *)
+Lemma contained_sequence : forall l evs w v c,
+  TInv l (w v) c ->
+  of_object v (wrun (dl_list l) w evs) = map snd (proc_counts (dl_list l) (w v) c (events_of v evs)) /\
+  Forall (step_ok (expected l)) (proc_counts (dl_list l) (w v) c (events_of v evs)).
+Proof.
+  intros l evs w v c HI. split.
+  - rewrite wrun_noninterference, proc_counts_results. reflexivity.
+  - apply throttle_sequence_proc. exact HI.
+Qed.
+
+Lemma never_fatal_all : forall dl,
+  (forall st now e, e_body e <> BEsc -> r_escalated (proc_event dl st now e) = false) /\
+  (forall evs w, Forall (fun x => e_body (snd x) <> BEsc) evs ->
+                 Forall (fun ur => r_escalated (snd ur) = false) (wrun dl w evs)).
+Proof. intros dl. split; [apply proc_never_fatal|apply wrun_never_fatal]. Qed.
+
+Definition ex_err : ep := {| e_ev := false; e_wk1 := None; e_body := BErr; e_dur := 0; e_evb := false; e_wk2 := None |}.
+Definition ex_err_woken : ep := {| e_ev := false; e_wk1 := None; e_body := BErr; e_dur := 0; e_evb := false; e_wk2 := Some 1 |}.
+Definition ex_ok : ep := {| e_ev := false; e_wk1 := Some 1; e_body := BOk; e_dur := 0; e_evb := false; e_wk2 := None |}.
+
+(* two objects: 0 errs twice (pauses 2 then 4; a new event at t=1 interrupts the first pause, its cycle waits until t=2),
+   1 is processed in between at its own times, untouched *)
+Example wrun_example :
+  map (fun ur => (fst ur, r_should (snd ur), r_start (snd ur), r_pause (snd ur), r_escalated (snd ur)))
+      (wrun (dl_list [2; 4; 6]) w0 [(0%nat, 0, ex_err_woken); (1%nat, 1, ex_ok); (0%nat, 1, ex_err); (1%nat, 3, ex_ok)])
+  = [(0%nat, true, 0, Some 2, false); (1%nat, true, 1, None, false); (0%nat, true, 2, Some 4, false); (1%nat, true, 3, None, false)].
+Proof. vm_compute. reflexivity. Qed.
+
 (* ---------- non-vacuity ---------- *)
 Example throttle_example :
   map (fun r => (r_should r, r_pause r, r_exit r))
       (run_eps (dl_list [2; 4; 6]) t0
-         [(0, {| e_ev := false; e_wk1 := None; e_body := BErr; e_dur := 0; e_wk2 := None |});
-          (2, {| e_ev := false; e_wk1 := None; e_body := BErr; e_dur := 0; e_wk2 := Some 1 |});
-          (3, {| e_ev := false; e_wk1 := Some 1; e_body := BOk; e_dur := 0; e_wk2 := None |});
-          (4, {| e_ev := false; e_wk1 := None; e_body := BOk; e_dur := 0; e_wk2 := None |});
-          (9, {| e_ev := false; e_wk1 := None; e_body := BErr; e_dur := 0; e_wk2 := None |})])
+         [(0, {| e_ev := false; e_wk1 := None; e_body := BErr; e_dur := 0; e_evb := false; e_wk2 := None |});
+          (2, {| e_ev := false; e_wk1 := None; e_body := BErr; e_dur := 0; e_evb := false; e_wk2 := Some 1 |});
+          (3, {| e_ev := false; e_wk1 := Some 1; e_body := BOk; e_dur := 0; e_evb := false; e_wk2 := None |});
+          (4, {| e_ev := false; e_wk1 := None; e_body := BOk; e_dur := 0; e_evb := false; e_wk2 := None |});
+          (9, {| e_ev := false; e_wk1 := None; e_body := BErr; e_dur := 0; e_evb := false; e_wk2 := None |})])
   = [(true, Some 2, 2); (true, Some 4, 3); (false, None, 4); (true, None, 6); (true, Some 2, 11)].
 Proof. vm_compute. reflexivity. Qed.
+
+(* ---------- non-vacuity of the hypotheses used above ---------- *)
+(* a paused object (pause interrupted by a new event): `until` is set, one error counted *)
+Example paused_example :
+  let r := episode (dl_list [2; 4; 6]) t0 0 ex_err_woken in
+  until (r_state r) = Some 2 /\ TInv [2; 4; 6] (r_state r) 1 /\ r_should r = true /\ r_pause r = Some 2 /\
+  r_should (episode (dl_list [2; 4; 6]) (r_state r) 1 (with_body ex_err_woken BOk)) = true /\
+  r_should (episode (dl_list [2; 4; 6]) (r_state r) 1
+              {| e_ev := false; e_wk1 := Some 0; e_body := BOk; e_dur := 0; e_evb := false; e_wk2 := None |}) = false.
+Proof. vm_compute. repeat split; try reflexivity. Qed.
+
+Example finv_example : FInv (fun i => 2 + Z.of_nat i) (r_state (episode (dl_fun (fun i => 2 + Z.of_nat i)) t0 0 ex_err)) 1.
+Proof. vm_compute. split; reflexivity. Qed.
